@@ -912,6 +912,81 @@ def run_outbuf(prop, tier, seed, out, binp):
 # request it issues is a valid 64-byte frame, a panic of the real code is recorded as an event and judged by the TLA+
 # trace spec spec/mon/MonCrash.tla.
 
+# ------------------------------------------------------------------ (7) command-object pool of the connections (CmdPool.tla)
+# Well-formed LOCK / UNLOCK histories whose VOLUME matters: the per-connection stack of recycled command objects (64 slots)
+# fills when one connection releases many simultaneously outstanding holds.  spec/CmdPool.tla is the three-tier pool as
+# coded; TLC exhausts it (PrivBound, OnePlace, Conserved), refutes the one-off guard, and -simulate behaviours (one model
+# object = 16 real requests) plus boundary histories are replayed on the real Server.handle / protocol objects (engine W).
+# A death of the harness process inside the code under test is judged by the TLA+ trace spec MonCrash (wcrash clause).
+
+def read_cfg_text(rel):
+    with open(os.path.join(VERIF, "spec", rel)) as fh:
+        return fh.read()
+
+def run_pool(prop, tier, seed, out, binp, wd):
+    import gen_pool
+    from checks import sessfam
+    quick = tier == "quick"
+    specs = [os.path.join(VERIF, "spec")]
+    info = {"model": "spec/CmdPool.tla"}
+    r = vtlc.run_tlc(specs, "CmdPool", read_cfg_text("mc/CmdPool_small.cfg"), os.path.join(wd, "pool_mc"), workers=8, timeout=600)
+    st = vtlc.parse_stats(r["out"])
+    if "No error has been found" not in r["out"] or not st:
+        raise InfraError("CmdPool model check (as coded) did not pass:\n" + r["out"][-1500:])
+    info["as_coded"] = {"config": "mc/CmdPool_small.cfg", "distinct_states": st["distinct"], "generated": st["generated"], "invariants": ["TypeOK", "PrivBound", "OnePlace", "Conserved"], "wall_s": round(r["wall"], 1)}
+    r2 = vtlc.run_tlc(specs, "CmdPool", read_cfg_text("mc/CmdPool_oneoff.cfg"), os.path.join(wd, "pool_mc2"), workers=1, timeout=300)
+    if "Invariant PrivBound is violated" not in r2["out"]:
+        raise InfraError("CmdPool: the one-off guard was not refuted (vacuity):\n" + r2["out"][-1500:])
+    info["one_off_guard_refuted"] = True
+    nb = 24 if quick else 400
+    cfg = read_cfg_text("sim/CmdPool_sim.cfg")
+    rs = vtlc.run_tlc(specs, "CmdPoolSim", cfg, os.path.join(wd, "pool_sim"), workers=1, timeout=600, simulate=f"num={nb * 3}", depth=300, seed=seed)
+    behs = []
+    seen = set()
+    for ln in rs["out"].splitlines():
+        ln = ln.strip()
+        if ln.startswith('"BEHAVIOUR '):
+            try:
+                sj = json.loads(ln)[len("BEHAVIOUR "):]
+            except Exception:
+                continue
+            if sj not in seen:
+                seen.add(sj)
+                behs.append(json.loads(sj))
+    if len(behs) < 3:
+        raise InfraError("CmdPoolSim produced no behaviours:\n" + rs["out"][-1500:])
+    behs = behs[:nb]
+    scs = [gen_pool.compile_behaviour(b, 4, f"pool-tlc-{seed}-{i}", seed * 1000 + i) for i, b in enumerate(behs)] + gen_pool.directed(seed)
+    sessfam.W_OPTS.update({"deadline": 30, "timeout": 600} if quick else {"deadline": 60, "timeout": 1500})
+    res = sessfam.run_w(binp, scs, os.path.join(wd, "pool_w"), 16)
+    traces = res["traces"] if isinstance(res, dict) else res[0]
+    viols, mst = engine.monitor_traces("MonCrash", traces, [prop], os.path.join(wd, "pool_mon"))
+    byname = {sc["name"]: sc for sc in scs}
+    for v in viols:
+        out.viols.append((v, byname.get(v.get("name"))))
+    # what the real private stacks did (evidence; the model says the index never passes the guard)
+    mx, full, nreq = 0, 0, 0
+    for tp in traces:
+        with open(tp) as fh:
+            for ln in fh:
+                if '"e":"wpool"' in ln:
+                    ev = json.loads(ln)
+                    for v in ev.get("priv", {}).values():
+                        mx = max(mx, v)
+                        full += 1 if v >= 64 else 0
+                elif '"e":"wreq"' in ln:
+                    nreq += 1
+    if mx > 64:
+        out.viols.append(({"prop": prop, "code": "private-command-stack-index-beyond-its-array", "detail": {"index": mx}}, None))
+    info.update({"tlc_behaviours_replayed": len(behs), "directed_histories": len(gen_pool.directed(seed)), "requests": nreq,
+                 "max_private_stack_index_seen": mx, "observations_with_full_stack": full, "monitor_events": mst["events"]})
+    if full == 0:
+        raise InfraError("pool phase: no history filled a private command stack (generator vacuous)")
+    out.coverage["command_pool"] = info
+    out.coverage["evaluations"] = out.coverage.get("evaluations", 0) + len(scs)
+    out.coverage["states"] = out.coverage.get("states", 0) + st["distinct"]
+    out.coverage["traces_validated_against_impl"] = out.coverage.get("traces_validated_against_impl", 0) + len(scs)
+
 def run(prop, tier, seed):
     import gen_core, shutil
     wd = vbuild.scratch(f"vf_{prop}_seq_")
@@ -922,6 +997,10 @@ def run(prop, tier, seed):
         if only == "ob":
             out = checklib.Outcome(); out.level = "exploration"; out.coverage = {}
             return run_outbuf(prop, tier, seed, out, binp)
+        if only == "pool":
+            out = checklib.Outcome(); out.level = "exploration"; out.coverage = {}
+            run_pool(prop, tier, seed, out, binp, wd)
+            return out
         out = run_bytes(prop, tier, seed, binp)
         run_outbuf(prop, tier, seed, out, binp)
         scs = [gen_core.gen_scenario(seed + 1000, i) for i in range(270 if quick else 4000)] + [gen_core.gen_big(seed + 1000, i) for i in range(14 if quick else 140)]
@@ -951,6 +1030,7 @@ def run(prop, tier, seed):
         out.coverage["request_sequences"] = {"histories": len(scs), "events": mst["events"], "monitor": "spec/mon/MonCrash.tla", "selftest": st,
                                              "rule": "lock-family histories (wide-range + big populations) of well-formed LOCK/UNLOCK requests with virtual-clock sweeps; a panic of the real code is a C13 violation"}
         out.coverage["evaluations"] = out.coverage.get("evaluations", 0) + len(scs)
+        run_pool(prop, tier, seed, out, binp, wd)
         return out
     finally:
         shutil.rmtree(wd, ignore_errors=True)
